@@ -1,7 +1,8 @@
 (* C19 - User text rendered as a comment can never become code (text kernel part). *)
 From Coq Require Import List NArith Bool Arith String.
-From Dznpy Require Import Base.PyStr Model.TextGen Spec.FlattenSpec Spec.IndentSpec
-  Proofs.PyStrFacts Proofs.TextGenFacts Proofs.C18Facts Proofs.C19Facts.
+From Dznpy Require Import Base.PyStr Base.Result Model.TextGen Spec.FlattenSpec Spec.IndentSpec
+  Proofs.PyStrFacts Proofs.TextGenFacts Proofs.C18Facts Proofs.C19Facts
+  Model.CppGen Model.SupportFiles Model.Builder Proofs.BuilderFacts Proofs.C19BuildFacts.
 Import ListNotations.
 Open Scope nat_scope.
 
@@ -40,6 +41,26 @@ Theorem C19_nested_comment : forall ls, wf_lines ls = true ->
   lns (mk1 (CList [CComment ls])) = map comment_line ls.
 Proof. exact comment_nested. Qed.
 Print Assumptions C19_nested_comment.
+
+(* in generated files, changing only the copyright or creator information changes nothing but comment lines:
+   the build succeeds or fails alike ... *)
+Theorem C19_outcome_independent_of_texts : forall tp fc cfg a b,
+  match build tp fc cfg, build tp fc (with_texts cfg a b) with
+  | Ok _, Ok _ => True | Err e, Err e' => e = e' | _, _ => False end.
+Proof. exact build_outcome_independent_of_texts. Qed.
+Print Assumptions C19_outcome_independent_of_texts.
+
+(* ... and each shell file is a block of comment lines followed by text that does not depend on the two settings *)
+Theorem C19_header_only_comment_lines_change : forall tp cfg fns ce,
+  exists rest, forall a b, wfc a = true -> wfc b = true ->
+    exists cl, splitlines (g_contents (create_headerfile tp (with_texts cfg a b) fns ce)) = (cl ++ rest)%list /\ all_comment_lines cl.
+Proof. exact headerfile_lines. Qed.
+Print Assumptions C19_header_only_comment_lines_change.
+Theorem C19_source_only_comment_lines_change : forall tp cfg ce, wfc (cf_copyright cfg) = true ->
+  exists rest, forall a b, wfc a = true ->
+    exists cl, splitlines (g_contents (create_sourcefile tp (with_texts cfg a b) ce)) = (cl ++ rest)%list /\ all_comment_lines cl.
+Proof. exact sourcefile_lines. Qed.
+Print Assumptions C19_source_only_comment_lines_change.
 
 Example demo_hostile :
   splitlines (str_comment (appended (CStr (lit "a \" ++ [8232%N] ++ lit " b" ++ [13%N;10%N;10%N] ++ lit "*/ int x;"))))
